@@ -38,6 +38,8 @@ def strat_1d(draw, tier):
     pretrunc = None
     if g["type"] in ("uniform-fixed", "geometric-bounds") and draw(st.integers(0, 2)) == 0:
         pretrunc = [draw(_f(0.6, 8.0)), draw(_f(0.6, 8.0))]
+    # a quarter of the models get their parameters through the update protocol (assign every parameter, initialisation())
+    spec["route"] = draw(st.sampled_from(["direct", "direct", "direct", "updated"]))
     return {"model": spec, "grid": g, "method": draw(st.sampled_from(METHODS_1D)), "earlier": [list(e) for e in earlier],
             "pretrunc": pretrunc,
             # a chain is built on the grid *before* it is refined (what every level of a coupling does): the grid object
@@ -128,7 +130,8 @@ def body_1d(case):
         out.append(Violation(f"{tag}/cells/central-cell", f"central cell [{cl},{cr}] h={grid.h}"))
 
     # (ii) rates vs quadrature of the untruncated density over the cell (cells lie inside the truncation)
-    base_nu = build_model(spec, force_exp=False).levy_triplet.nu
+    # (reference density from a directly constructed model, whatever route the model under test took)
+    base_nu = build_model(dict(spec, route="direct"), force_exp=False).levy_triplet.nu
     hints = quad_hints(spec)
     tail_l = nu_integral(base_nu, -INF, -grid.h / 2, 0, hints)[0]
     tail_r = nu_integral(base_nu, grid.h / 2, INF, 0, hints)[0]
@@ -169,7 +172,7 @@ def body_1d(case):
             out.append(Violation(f"{tag}/model-mass-differs", f"state {k}: mass {m!r} vs q {q[k]!r}"))
             break
     # the caller's model object is left as it was (the chain truncates and re-represents a copy)
-    fresh = build_model(spec)
+    fresh = build_model(dict(spec, route="direct"))
     if case.get("pretrunc"):
         fresh.truncate_levy_measure((pl, pr))
     t0, t1 = model.levy_triplet, fresh.levy_triplet
@@ -226,6 +229,7 @@ def strat_copula(draw, tier):
         g["a_frac"] = [draw(_f(0.1, 0.9)) for _ in range(d)]
         g["symmetric"] = draw(st.booleans())
     return {"margins": margins, "copula": draw(copula_spec()), "grid": g,
+            "param_update": (not heavy) and draw(st.integers(0, 3)) == 0,
             "method": draw(st.sampled_from(["INVERSION", "BINARYSEARCHTREEADAPTED"]))}
 
 
@@ -262,7 +266,33 @@ def body_copula(case):
 
     out = []
     d = len(case["margins"])
-    model = build_copula_model({"margins": case["margins"], "copula": case["copula"]})
+    if case.get("param_update"):
+        # one model object through a parameter update: a chain is built (and its tail integrals evaluated) with other
+        # marginal parameters, the parameters are then assigned their values in place and re-initialised (the library's
+        # update protocol, what a calibration or a bump does), and the chain under test is built from the same object
+        from rpylib.grid.spatial import CTMCUniformGrid
+        from vlib.models import _START
+
+        start = [dict(m, params=dict(_START[m["family"]])) for m in case["margins"]]
+        model = build_copula_model({"margins": start, "copula": case["copula"]})
+        # (the earlier chain lives on an equal grid - the same cell boundaries are asked for again later - where the grid
+        # does not depend on the model, on a small fixed one otherwise)
+        g0 = CTMCUniformGrid.create_from_fixed_nb_of_points(h=0.04, nb_of_points=7, dimension=d)
+        if case["grid"]["type"] in ("uniform-fixed", "geometric-bounds"):
+            try:
+                g0 = build_copula_grid(case, build_copula_model({"margins": case["margins"], "copula": case["copula"]}))
+            except GridRejected as e:
+                return [Violation("REJECTED", str(e))]
+        if int(np.prod([len(a) for a in g0.axes])) > (700 if d == 2 else 400):
+            return [Violation("REJECTED", "outside the per-case bound")]
+        MarkovChainLevyCopula(levy_copula_model=model, grid=g0, method=_method(case["method"]))
+        for mm, m in zip(model.models, case["margins"]):
+            params = mm.levy_model.parameters if hasattr(mm, "levy_model") else mm.parameters
+            for k_, v_ in m["params"].items():
+                setattr(params, k_, v_)
+            params.initialisation()
+    else:
+        model = build_copula_model({"margins": case["margins"], "copula": case["copula"]})
     try:
         grid = build_copula_grid(case, model)
     except GridRejected as e:
@@ -362,11 +392,14 @@ def body_copula(case):
 
 
 def classify_copula(case):
+    # (labels below; "param_update" marks the object-through-a-parameter-update history)
     d = len(case["margins"])
     labels = [f"d={d}", case["copula"]["type"], case["grid"]["type"], case["method"]] + \
              sorted({branch_of(m) for m in case["margins"]})
     if case["copula"]["type"] == "clayton" and case["copula"]["eta"] in (0.0, 1.0):
         labels.append("eta-endpoint")
+    if case.get("param_update"):
+        labels.append("model-object-through-a-parameter-update")
     return labels, True
 
 
@@ -432,7 +465,7 @@ SUBCHECKS = [
                   "grids (fixed-size, geometric-with-bounds, uniform, credit sym/asym) x {INVERSION, adapted "
                   "tree}: every state's rate vs harness reference rectangle mass, cells, sum vs intensity, "
                   "3^d-1 bucket masses; every case non-trivial",
-             strategy=strat_copula, budget={"quick": 48, "thorough": 480},
+             strategy=strat_copula, budget={"quick": 160, "thorough": 480},
              shards={"quick": 8, "thorough": 16}),
     SubCheck("copula-joint-density", body_density, classify_density,
              rule="Clayton d=2 with absolutely continuous margins: library mass of an off-axis rectangle in a "
